@@ -114,7 +114,7 @@ pub fn worker(prop: &str, seed: u64, w: u64, nw: u64, count: u64, out_path: &str
         let sc = profiles::generate(prop, seed, i);
         // per-index wall-clock watchdog (an endless CPU-only loop makes no simulated call); the one
         // world that moves more than 4 GiB of bytes gets more time
-        let limit = if sc.tags.iter().any(|t| t == "over-4gib") { 240 } else { 25 };
+        let limit = if sc.tags.iter().any(|t| t.starts_with("over-")) { 240 } else { 25 };
         arm_watchdog(limit);
         let ev = oracle::evaluate(prop, &sc);
         disarm_watchdog();
@@ -263,19 +263,11 @@ pub fn check(prop: &str, tier: &str) -> i32 {
         }
     }
     let mut merged = WorkerOut::default();
-    let mut crashed: Vec<(u64, String)> = Vec::new();
-    for (w, mut c, outp) in children {
-        let st = c.wait();
-        let ok = st.as_ref().map(|s| s.success()).unwrap_or(false);
-        if !ok {
-            let cur = std::fs::read_to_string(format!("{}.cur", outp.display())).unwrap_or_default();
-            let idx: Option<u64> = cur.trim().parse().ok();
-            crashed.push((idx.unwrap_or(u64::MAX), format!("worker {} died: {:?}", w, st)));
-            continue;
-        }
-        let Ok(s) = std::fs::read_to_string(&outp) else {
-            crashed.push((u64::MAX, format!("worker {} wrote no result", w)));
-            continue;
+    // (index the worker was at, message, exit code of that index run alone: None = died again)
+    let mut crashed: Vec<(u64, String, Option<i32>)> = Vec::new();
+    let absorb = |merged: &mut WorkerOut, outp: &std::path::Path| -> bool {
+        let Ok(s) = std::fs::read_to_string(outp) else {
+            return false;
         };
         let v: Value = serde_json::from_str(&s).unwrap_or(Value::Null);
         merged.evaluations += v["evaluations"].as_u64().unwrap_or(0);
@@ -310,31 +302,92 @@ pub fn check(prop: &str, tier: &str) -> i32 {
                 x[2].as_str().unwrap_or("").to_string(),
             ));
         }
+        true
+    };
+    let cur_index = |outp: &std::path::Path| -> Option<u64> { std::fs::read_to_string(format!("{}.cur", outp.display())).ok().and_then(|c| c.trim().parse().ok()) };
+    // (worker, result path, index it died at, message)
+    let mut dead: Vec<(u64, std::path::PathBuf, Option<u64>, String)> = Vec::new();
+    for (w, mut c, outp) in children {
+        let st = c.wait();
+        let ok = st.as_ref().map(|s| s.success()).unwrap_or(false);
+        if !ok {
+            dead.push((w, outp.clone(), cur_index(&outp), format!("worker {} died: {:?}", w, st)));
+        } else if !absorb(&mut merged, &outp) {
+            crashed.push((u64::MAX, format!("worker {} wrote no result", w), None));
+        }
+    }
+    // Every index a worker died at is run alone, in a fresh process (all of them side by side). An
+    // index that dies again is a finding about that index (C02's subject). A worker that died on an
+    // index which passes on its own was lost to something outside the run (memory pressure, a loaded
+    // machine tripping the watchdog): its whole share is evaluated again so that no index goes
+    // unevaluated.
+    let alone: Vec<Option<std::process::Child>> = dead
+        .iter()
+        .map(|(_, _, idx, _)| {
+            idx.and_then(|i| {
+                std::process::Command::new(&exe)
+                    .args(["one", prop, &seed.to_string(), &i.to_string()])
+                    .stdout(std::process::Stdio::null())
+                    .spawn()
+                    .ok()
+            })
+        })
+        .collect();
+    let alone: Vec<Option<i32>> = alone.into_iter().map(|c| c.and_then(|mut c| c.wait().ok()).and_then(|s| s.code())).collect();
+    let mut again: Vec<(u64, std::path::PathBuf, String, std::process::Child)> = Vec::new();
+    for ((w, outp, idx, msg), code) in dead.into_iter().zip(alone) {
+        let Some(i) = idx else {
+            crashed.push((u64::MAX, msg, None));
+            continue;
+        };
+        if code == Some(0) || code == Some(1) {
+            eprintln!("mdsim: {} at index {}, which passes alone; re-running its share", msg, i);
+            *merged.counters.entry("worker_share_rerun".into()).or_insert(0) += 1;
+            let c = std::process::Command::new(&exe)
+                .args(["worker", prop, &seed.to_string(), &w.to_string(), &nw.to_string(), &b.cases.to_string(), outp.to_str().unwrap(), &b.wall_s.to_string(), "0"])
+                .spawn();
+            match c {
+                Ok(c) => again.push((w, outp, msg, c)),
+                Err(_) => crashed.push((i, msg, code)),
+            }
+        } else {
+            crashed.push((i, msg, code));
+        }
+    }
+    for (w, outp, msg, mut c) in again {
+        let ok = c.wait().map(|s| s.success()).unwrap_or(false);
+        if !ok || !absorb(&mut merged, &outp) {
+            let i = cur_index(&outp).unwrap_or(u64::MAX);
+            let code = std::process::Command::new(&exe)
+                .args(["one", prop, &seed.to_string(), &i.to_string()])
+                .stdout(std::process::Stdio::null())
+                .status()
+                .ok()
+                .and_then(|s| s.code());
+            crashed.push((i, format!("{} (and again, as worker {}, when its share was re-run)", msg, w), code));
+        }
     }
     let _ = std::fs::remove_dir_all(&tmp);
 
     // worker deaths: re-run the single index in a fresh process to confirm
     let mut exit = 0;
     let mut nviol = 0u64;
-    for (ci, (idx, msg)) in crashed.iter().enumerate() {
+    for (ci, (idx, msg, code)) in crashed.iter().enumerate() {
         eprintln!("mdsim: {} (index {})", msg, idx);
         if ci >= 3 {
-            // every worker stops at its first fatal index; three confirmed re-runs are enough to report
+            // every worker stops at its first fatal index; three are enough to report
             continue;
         }
         if *idx == u64::MAX {
             eprintln!("HARNESS-ERROR: worker failure without a current index");
             return 2;
         }
-        let st = std::process::Command::new(&exe)
-            .args(["one", prop, &seed.to_string(), &idx.to_string()])
-            .status();
-        let code = st.as_ref().ok().and_then(|s| s.code());
+        let code = *code;
         if code == Some(101) || code == Some(2) {
             eprintln!("HARNESS-ERROR: the harness itself panicked on index {} (exit {:?}); not a property violation", idx, code);
             return 2;
         }
-        let died = !st.map(|s| s.success() || s.code() == Some(1)).unwrap_or(false);
+        let died = !(code == Some(0) || code == Some(1));
         if died {
             if prop == "C02" {
                 let sc = profiles::generate(prop, seed, *idx);
@@ -390,8 +443,16 @@ pub fn check(prop: &str, tier: &str) -> i32 {
             let path = write_replay(prop, &min_sc, &o, detail, &trace);
             println!("mdsim: violation oracle={} index={} shrink_steps={} detail={}", o, idx, steps, detail);
             // replay must reproduce in a fresh process
-            let st = std::process::Command::new(&exe).args(["replay", &path]).output();
-            let reproduced = st.map(|s| s.status.code() == Some(1)).unwrap_or(false);
+            // (a replay process lost to the machine - out of memory, watchdog on a loaded host - is
+            // tried again; a replay that runs to its end and does not violate is a harness error)
+            let mut reproduced = false;
+            for _ in 0..3 {
+                let st = std::process::Command::new(&exe).args(["replay", &path]).output();
+                reproduced = st.map(|s| s.status.code() == Some(1)).unwrap_or(false);
+                if reproduced {
+                    break;
+                }
+            }
             if !reproduced {
                 eprintln!("HARNESS-ERROR: replay of {} did not reproduce the violation", path);
                 return 2;
@@ -476,7 +537,7 @@ pub fn replay(path: &str) -> i32 {
     let sc: Scenario = match serde_json::from_value(v["scenario"].clone()) {
         Ok(s) => {
             let s: Scenario = s;
-            if s.tags.iter().any(|t| t == "over-4gib") {
+            if s.tags.iter().any(|t| t.starts_with("over-")) {
                 arm_watchdog(240);
             }
             s
@@ -533,7 +594,7 @@ fn set_prof_timer(seconds: i64) {
 
 pub fn one(prop: &str, seed: u64, idx: u64) -> i32 {
     let sc = profiles::generate(prop, seed, idx);
-    arm_watchdog(if sc.tags.iter().any(|t| t == "over-4gib") { 240 } else { 25 });
+    arm_watchdog(if sc.tags.iter().any(|t| t.starts_with("over-")) { 240 } else { 25 });
     if std::env::var("VERIF_VERBOSE").is_ok() {
         // debugging aid: the base run's call trace and outcome
         let res = crate::run::run(&sc, &crate::run::RunOpts { trace: true, ..Default::default() });
